@@ -225,12 +225,54 @@ fn hermes(t: Tier) -> BoxedStrategy<Case> {
     hermes_strategy(p).prop_map(|h| Case::Model(MAny::Hermes(h))).boxed()
 }
 
+fn large(t: Tier) -> BoxedStrategy<Case> {
+    let p = MMParams { max_tokens: t.pick(1200, 5000), ..MMParams::regular(t) };
+    mm_strategy(p).prop_map(|m| Case::Model(MAny::Regular(m))).boxed()
+}
+
+fn deep(t: Tier) -> BoxedStrategy<Case> {
+    let p = MMParams { max_tokens: 8, big_lines: false, ..MMParams::regular(t) };
+    deep_index_strategy(p, 30).prop_map(|i| Case::Model(MAny::Index(i))).boxed()
+}
+
+/// many tokens on very few positions, string tables with repeated entries
+fn crowded(t: Tier) -> BoxedStrategy<Case> {
+    let p = MMParams { max_tokens: t.pick(40, 120), ..MMParams::regular(t) };
+    (mm_strategy(p), 1u32..3, 1u32..4)
+        .prop_map(|(mut m, ml, mc)| {
+            for tok in &mut m.tokens {
+                tok.dl %= ml;
+                tok.dc %= mc;
+                if let Some(s) = &mut tok.src {
+                    s.line %= 2;
+                    s.col %= 2;
+                }
+            }
+            // repeat strings at several indices
+            for i in 1..m.sources.len() {
+                if i % 2 == 1 {
+                    m.sources[i] = m.sources[0].clone();
+                }
+            }
+            for i in 1..m.names.len() {
+                if i % 2 == 0 {
+                    m.names[i] = m.names[0].clone();
+                }
+            }
+            Case::Model(MAny::Regular(m))
+        })
+        .boxed()
+}
+
 fn docs(t: Tier) -> BoxedStrategy<Case> {
     doc_strategy(t, true).prop_map(Case::Doc).boxed()
 }
 
 fn subs() -> Vec<Sub> {
     vec![
+        gen_sub("large_regular", large, |t| t.pick(150, 3_000), check),
+        gen_sub("deep_nesting", deep, |t| t.pick(600, 12_000), check),
+        gen_sub("crowded_positions", crowded, |t| t.pick(4_000, 80_000), check),
         gen_sub("regular", regular, |t| t.pick(20_000, 400_000), check),
         gen_sub("index", index, |t| t.pick(5_000, 100_000), check),
         gen_sub("hermes", hermes, |t| t.pick(5_000, 100_000), check),
